@@ -1,7 +1,13 @@
 use std::mem;
 use std::ptr;
+#[cfg(not(multiqueue2_verif))]
 use std::sync::atomic::{AtomicUsize, Ordering};
+#[cfg(not(multiqueue2_verif))]
 use std::sync::Mutex;
+#[cfg(multiqueue2_verif)]
+use crate::verif_hooks::{AtomicUsize, StdMutex as Mutex};
+#[cfg(multiqueue2_verif)]
+use std::sync::atomic::Ordering;
 
 use crate::alloc;
 use crate::atomicsignal::AtomicSignal;
